@@ -526,6 +526,7 @@ type FuncSpec struct {
 	Props      []string
 	Requires   []Clause
 	Ensures    []Clause
+	Checks     []Clause // checked at every return like ensures, may mention locals, not exported to callers
 	Loops      map[int]*LoopSpec
 	NoPanic    bool
 	Overflow   bool
@@ -605,7 +606,7 @@ var clauseKeywords = map[string]bool{
 	"property": true, "requires": true, "ensures": true, "nopanic": true, "overflow": true,
 	"untrusted": true, "loop": true, "modifies": true, "assume": true, "trusted": true,
 	"fresh": true, "params": true, "results": true, "let": true, "assert": true, "var": true,
-	"dropped": true, "param": true, "end": true,
+	"dropped": true, "param": true, "end": true, "checks": true,
 }
 
 // parseContractFile reads a zz_contracts_verif.go file.
@@ -692,7 +693,7 @@ func (c *Contracts) parseContractFile(path, pkgPath string) error {
 			} else {
 				return fail(l.n, "property outside block")
 			}
-		case "requires", "ensures", "modifies", "assume":
+		case "requires", "ensures", "modifies", "assume", "checks":
 			if cur == nil {
 				return fail(l.n, "%s outside func block", kw)
 			}
@@ -705,6 +706,8 @@ func (c *Contracts) parseContractFile(path, pkgPath string) error {
 				cur.Requires = append(cur.Requires, cl)
 			case "ensures":
 				cur.Ensures = append(cur.Ensures, cl)
+			case "checks":
+				cur.Checks = append(cur.Checks, cl)
 			case "modifies":
 				cur.Modifies = append(cur.Modifies, cl)
 			case "assume":
